@@ -246,4 +246,101 @@ theorem faceColors_eq_iff_conn (nv : Nat) (idx : List Tri) (cc : CC) (h : comput
 /-- non-vacuity: two components, colours `[0, 1, 0]` -/
 example : (computeCC 8 [⟨0, 1, 2⟩, ⟨5, 6, 7⟩, ⟨2, 3, 4⟩]).map (·.faceColors) = some [0, 1, 0] := by decide
 
+/-! ### the colours are numbered in first-occurrence order (fu5) -/
+
+/-- every range id below `ranges.len()` is in use, and before a colour `c` appears every smaller colour has appeared -/
+private structure FirstInv (ranges colors : List Nat) : Prop where
+  used : ∀ c : Nat, c + 1 < ranges.length → ∃ j : Nat, colors[j]? = some c
+  first : ∀ (k c : Nat), colors[k]? = some c → ∀ c2 : Nat, c2 < c → ∃ j : Nat, j < k ∧ colors[j]? = some c2
+
+private theorem firstInv_push {ranges colors : List Nat} {rid : Nat} (R : List Nat) (hi : FirstInv ranges colors)
+    (hrid : rid ≤ ranges.length)
+    (hR : R.length = ranges.length ∨ (R.length = ranges.length + 1 ∧ rid = ranges.length)) :
+    FirstInv R (colors ++ [rid - 1]) := by
+  have lift : ∀ c, c + 1 < ranges.length → ∃ j, j < colors.length ∧ (colors ++ [rid - 1])[j]? = some c := by
+    intro c hc
+    obtain ⟨j, hj⟩ := hi.used c hc
+    have hlt : j < colors.length := (List.getElem?_eq_some_iff.mp hj).1
+    exact ⟨j, hlt, by rw [List.getElem?_append_left hlt]; exact hj⟩
+  constructor
+  · intro c hc
+    by_cases hcl : c + 1 < ranges.length
+    · obtain ⟨j, _, hj⟩ := lift c hcl
+      exact ⟨j, hj⟩
+    · rcases hR with hR | ⟨hR, hr⟩
+      · omega
+      · have : c = rid - 1 := by omega
+        exact ⟨colors.length, by rw [this]; simp⟩
+  · intro k c hk c' hc'
+    by_cases hlt : k < colors.length
+    · rw [List.getElem?_append_left hlt] at hk
+      obtain ⟨j, hj, hjc⟩ := hi.first k c hk c' hc'
+      exact ⟨j, hj, by rw [List.getElem?_append_left (by omega)]; exact hjc⟩
+    · have hk2 : k = colors.length := by
+        have := (List.getElem?_eq_some_iff.mp hk).1
+        simp at this; omega
+      subst hk2
+      simp at hk
+      subst hk
+      obtain ⟨j, hj, hjc⟩ := lift c' (by omega)
+      exact ⟨j, hj, hjc⟩
+
+private theorem colorLoop_first (labels : List Nat) (ts : List Tri) (vtr ranges colors R C : List Nat)
+    (hi : FirstInv ranges colors) (h : colorLoop labels ts vtr ranges colors = some (R, C)) : FirstInv R C := by
+  induction ts generalizing vtr ranges colors with
+  | nil => rw [colorLoop] at h; cases h; exact hi
+  | cons t ts ih =>
+    rw [colorLoop_cons] at h
+    cases hg : labels[t.a]? with
+    | none => simp [hg] at h
+    | some g =>
+      simp only [hg] at h
+      cases hr0 : vtr[g]? with
+      | none => simp [hr0] at h
+      | some r0 =>
+        simp only [hr0] at h
+        by_cases h0 : r0 = umax
+        · simp only [h0, if_true] at h
+          cases hrid : (vtr.set g ranges.length)[g]? with
+          | none => simp [hrid] at h
+          | some rid =>
+            simp only [hrid] at h
+            split at h
+            · rename_i hlt
+              have hgl : g < vtr.length := (List.getElem?_eq_some_iff.mp hr0).1
+              have : rid = ranges.length := by
+                rw [List.getElem?_set, if_pos rfl, if_pos hgl] at hrid
+                exact (Option.some.inj hrid).symm
+              subst this
+              exact ih _ _ _ (firstInv_push (ranges := ranges) _ hi (le_refl _) (Or.inr ⟨by simp, rfl⟩)) h
+            · cases h
+        · simp only [h0, if_false, hr0] at h
+          split at h
+          · rename_i hlt
+            exact ih _ _ _ (firstInv_push (ranges := ranges) _ hi (by omega) (Or.inl (by simp))) h
+          · cases h
+
+/-- **the colours are numbered in first-occurrence order**: when face `k` has colour `c`, every smaller colour `c' < c`
+is the colour of an earlier face `j < k` (so the first face has colour 0 and each new component gets the next unused
+number).  Together with `faceColors_eq_iff_conn` this determines the colouring completely. -/
+theorem faceColors_first_occurrence (nv : Nat) (idx : List Tri) (cc : CC) (h : computeCC nv idx = some cc)
+    (k c : Nat) (hk : cc.faceColors[k]? = some c) : ∀ c' < c, ∃ j < k, cc.faceColors[j]? = some c' := by
+  unfold computeCC at h
+  split at h
+  · cases h
+  · simp only at h
+    split at h
+    · cases h
+    · rename_i ranges colors hcl
+      split at h
+      · cases h
+      · cases h
+        simp only at hk ⊢
+        have hinit : FirstInv [0] [] := ⟨fun c hc => by simp at hc, fun k c hk => by simp at hk⟩
+        exact (colorLoop_first _ _ _ _ _ _ _ hinit hcl).first k c hk
+
+/-- non-vacuity: three components met in the order 0, 1, 0, 2, 1 -/
+example : (computeCC 12 [⟨0, 1, 2⟩, ⟨5, 6, 7⟩, ⟨2, 3, 4⟩, ⟨9, 10, 11⟩, ⟨7, 8, 5⟩]).map (·.faceColors) = some [0, 1, 0, 2, 1] := by
+  decide
+
 end C11
